@@ -249,6 +249,8 @@ func runC14(c *fw.Ctx) {
 				"send [USD " + ds + "] (source = @a destination = @b)",
 				"send [USD -" + ds + "] (source = @a destination = @b)",
 				"send [USD 1] (source = @a destination = { " + ds + "/" + ds + " to @b remaining kept })",
+				"send [USD 1] (source = @a destination = { " + ds + " / " + ds + " to @b remaining kept })",
+				"send [USD 1] (source = @a destination = { 1/ " + ds + " to @b " + ds + " /" + ds + " kept remaining kept })",
 				"send [USD 1] (source = @a destination = { 0." + ds + "% to @b remaining kept })",
 				"send [USD 1] (source = @a destination = { " + ds + "% to @b remaining kept })",
 				"set_tx_meta(\"k\", " + ds + " + " + ds + ")",
